@@ -37,6 +37,7 @@ type harnessFile struct {
 	Virtual string // overlay path under /repo
 	Dirs    []string // file-level directives
 	Entries []*entry
+	Includes []string // model templates from /verif/harness/models
 }
 
 type entry struct {
@@ -207,6 +208,19 @@ func loadHarnessFiles(dir string) ([]*harnessFile, error) {
 						hf.PkgDir = strings.TrimSpace(mm[2])
 					case "module":
 						hf.Module = strings.TrimSpace(mm[2])
+					case "include":
+						name := strings.TrimSpace(mm[2])
+						hf.Includes = append(hf.Includes, name)
+						// directives declared inside the model file apply to this harness file
+						if mb, err := os.ReadFile(modelPath(name)); err == nil {
+							for _, line := range strings.Split(string(mb), "\n") {
+								if m2 := dirRe.FindStringSubmatch(strings.TrimSpace(line)); m2 != nil {
+									hf.Dirs = append(hf.Dirs, m2[1]+" "+strings.TrimSpace(m2[2]))
+								}
+							}
+						} else {
+							return nil, fmt.Errorf("%s: include %s: %v", p, name, err)
+						}
 					default:
 						hf.Dirs = append(hf.Dirs, mm[1]+" "+strings.TrimSpace(mm[2]))
 					}
@@ -243,6 +257,18 @@ func loadHarnessFiles(dir string) ([]*harnessFile, error) {
 	return out, nil
 }
 
+func modelPath(name string) string {
+	return filepath.Join(verifRoot, "harness", "models", name+".go.tmpl")
+}
+
+func modelSource(name, pkgName string) []byte {
+	b, err := os.ReadFile(modelPath(name))
+	if err != nil {
+		panic(err)
+	}
+	return []byte(strings.Replace(string(b), "package PKGNAME", "package "+pkgName, 1))
+}
+
 func rtSource(pkgName string) []byte {
 	b, err := os.ReadFile(filepath.Join(verifRoot, "harness", "rt", "rt.go.tmpl"))
 	if err != nil {
@@ -271,6 +297,9 @@ func loadProgram(module string, files []*harnessFile) (*ssa.Program, map[string]
 		if !rtDone[dir] {
 			overlay[filepath.Join(dir, "zz_verif_rt.go")] = rtSource(f.PkgName)
 			rtDone[dir] = true
+		}
+		for _, inc := range f.Includes {
+			overlay[filepath.Join(dir, "zz_verif_model_"+inc+".go")] = modelSource(inc, f.PkgName)
 		}
 		patterns["./"+f.PkgDir] = true
 		for _, d := range f.Dirs {
@@ -454,7 +483,29 @@ type nativeOutcome struct {
 }
 
 // runNative executes cases of one harness package natively through `go test -overlay`.
-func runNative(files []*harnessFile, pkgDir, module, tier string, cases []nativeCase) ([]nativeOutcome, error) {
+func entryReplaces(e *entry) map[string]string {
+	out := map[string]string{}
+	for _, d := range e.Dirs {
+		if strings.HasPrefix(d, "replace ") {
+			parts := strings.SplitN(strings.TrimPrefix(d, "replace "), "=>", 2)
+			if len(parts) == 2 {
+				out[strings.TrimSpace(parts[0])] = strings.TrimSpace(parts[1])
+			}
+		}
+	}
+	return out
+}
+
+func replKey(m map[string]string) string {
+	var ks []string
+	for k, v := range m {
+		ks = append(ks, k+"=>"+v)
+	}
+	sort.Strings(ks)
+	return strings.Join(ks, ";")
+}
+
+func runNative(files []*harnessFile, pkgDir, module, tier string, engineReplaces map[string]string, cases []nativeCase) ([]nativeOutcome, error) {
 	tmp, err := os.MkdirTemp("", "gosym-replay-")
 	if err != nil {
 		return nil, err
@@ -469,11 +520,22 @@ func runNative(files []*harnessFile, pkgDir, module, tier string, cases []native
 		}
 		replace[f.Virtual] = f.Path
 		pkgName = f.PkgName
+		for _, inc := range f.Includes {
+			mp := filepath.Join(tmp, "model_"+inc+".go")
+			os.WriteFile(mp, modelSource(inc, f.PkgName), 0644)
+			replace[filepath.Join(repoRoot, module, pkgDir, "zz_verif_model_"+inc+".go")] = mp
+		}
 		for _, e := range f.Entries {
 			entries = append(entries, e.Name)
 		}
 	}
 	dir := filepath.Join(repoRoot, module, pkgDir)
+	if module == "." {
+		rw, _ := rewriteForNative(tmp, dir, repoModule+"/"+pkgDir, engineReplaces)
+		for k, v := range rw {
+			replace[k] = v
+		}
+	}
 	rt := filepath.Join(tmp, "rt.go")
 	os.WriteFile(rt, rtSource(pkgName), 0644)
 	replace[filepath.Join(dir, "zz_verif_rt.go")] = rt
@@ -598,17 +660,22 @@ func finish(prop, tier string, seed int, files []*harnessFile, results []*entryR
 	spurious := []string{}
 	witnessOK, witnessBad := 0, 0
 	replayDir := filepath.Join(verifRoot, "replays", prop)
-	type grpKey struct{ dir, mod string }
+	type grpKey struct{ dir, mod, repl string }
+	grpRepl := map[grpKey]map[string]string{}
 	if !noReplay {
 		groups := map[grpKey][]pending{}
 		kinds := map[grpKey][]string{}
 		for _, p := range satCex {
-			k := grpKey{p.res.ent.File.PkgDir, p.res.ent.File.Module}
+			er := entryReplaces(p.res.ent)
+			k := grpKey{p.res.ent.File.PkgDir, p.res.ent.File.Module, replKey(er)}
+			grpRepl[k] = er
 			groups[k] = append(groups[k], p)
 			kinds[k] = append(kinds[k], "cex")
 		}
 		for _, p := range witnesses {
-			k := grpKey{p.res.ent.File.PkgDir, p.res.ent.File.Module}
+			er := entryReplaces(p.res.ent)
+			k := grpKey{p.res.ent.File.PkgDir, p.res.ent.File.Module, replKey(er)}
+			grpRepl[k] = er
 			groups[k] = append(groups[k], p)
 			kinds[k] = append(kinds[k], "wit")
 		}
@@ -617,7 +684,7 @@ func finish(prop, tier string, seed int, files []*harnessFile, results []*entryR
 			for _, p := range ps {
 				cases = append(cases, nativeCase{Entry: p.cex.Entry, Table: p.cex.Table})
 			}
-			outs, err := runNative(files, k.dir, k.mod, tier, cases)
+			outs, err := runNative(files, k.dir, k.mod, tier, grpRepl[k], cases)
 			if err != nil {
 				inconclusive = append(inconclusive, "native replay failed: "+firstLine(err.Error()))
 				fmt.Fprintln(os.Stderr, err)
@@ -797,7 +864,7 @@ func replayOnly(prop, tier string, files []*harnessFile, path string) int {
 	for _, f := range files {
 		for _, e := range f.Entries {
 			if e.Name == rec.Entry {
-				outs, err := runNative(files, f.PkgDir, f.Module, tier, []nativeCase{{Entry: rec.Entry, Table: rec.Table}})
+				outs, err := runNative(files, f.PkgDir, f.Module, tier, entryReplaces(e), []nativeCase{{Entry: rec.Entry, Table: rec.Table}})
 				if err != nil {
 					fmt.Fprintln(os.Stderr, err)
 					return 2
